@@ -1471,6 +1471,15 @@ impl<T: PPGEvaluatorStrategy> PPGEvaluator<T> {
                                 self.gen
                             );
                         }
+                        JobState::Ephemeral(JobStateEphemeral::FinishedSkipped) => {
+                            // skipped early, like the Output above: what it was judged against
+                            // turned out to be unavailable, and its consumers need to know.
+                            set_node_state!(
+                                j,
+                                JobState::Ephemeral(JobStateEphemeral::FinishedUpstreamFailure),
+                                self.gen
+                            );
+                        }
                         _ => {
                             // the job was already offered, is running, or has finished otherwise:
                             // that happens when one of its upstreams was skipped (and this job
